@@ -117,16 +117,14 @@ def _spec_exp(ex, path, args, kwargs, node, fn):
     return EXP(to_z3(args[0], "real"))
 
 
-@model("src_idx", doc="spec: ghost provenance - the index array by which `rows` was gathered from `base`")
+@model("src_idx", doc="spec: ghost provenance - the index array g with rows == base[g] (recorded gathers, composed)")
 def _src_idx(ex, path, args, kwargs, node, fn):
+    from jvc.symexec import gather_path
     rows, base = args
-    g = getattr(rows, "gather", None)
-    if rows is base:
-        n = base.shape[0]
-        return Arr([n], lambda k: to_z3(k), "int")
-    if g is None or g[0] is not base:
+    g = gather_path(rows, base)
+    if g is None:
         raise Unsupported("provenance of the returned rows is not a gather from the given library")
-    return g[1]
+    return g
 
 
 @model("rng_event", doc="spec: k-th event of the ghost draw trace")
@@ -176,3 +174,76 @@ def reshaped_from_3d(a3, name="flat"):
     flat = fresh_arr(name, 2, a3.dtype, [to_z3(n) * to_z3(J), C])
     flat.view3 = a3
     return flat
+
+
+@model("ev_lls", doc="spec: k -> LL(row evaluated k-th); rows are order[k] (or k when order is None), NE of them")
+def _ev_lls(ex, path, args, kwargs, node, fn):
+    packed, order, ne = args
+    key = ("ev_lls", id(packed), id(order))
+    cache = path.ghost.setdefault("lls_cache", {})
+    if key not in cache:
+        base = ll_of_rows(packed)
+        if order is None:
+            a = Arr([ne], lambda k: base.at(k), "real", "ev_lls")
+        else:
+            a = Arr([ne], lambda k: base.at(order.at(k)), "real", "ev_lls")
+        cache[key] = (packed, a)
+    return cache[key][1]
+
+
+@model("is_array", doc="spec: the value is a plain numeric array (not structured records)")
+def _is_array(ex, path, args, kwargs, node, fn):
+    return isinstance(args[0], Arr)
+
+
+@model("all_opens_read_only", doc="spec: every file open recorded on this path used the literal mode 'r'")
+def _all_ro(ex, path, args, kwargs, node, fn):
+    return all(o["mode"] == "r" for o in path.ghost.get("file_opens", []))
+
+
+@model("src_rowidx", doc="spec: the index array by which `rows` was gathered from its immediate source")
+def _src_rowidx(ex, path, args, kwargs, node, fn):
+    g = getattr(args[0], "gather", None)
+    if g is None:
+        raise Unsupported("rows carry no provenance")
+    return g[1]
+
+
+@model("wit", doc="spec: ghost witness - the position r with idx[r] == k, for an index array produced by np.where "
+                  "(possibly sliced): the inverse `pos` that the where() library contract provides")
+def _wit(ex, path, args, kwargs, node, fn):
+    idx, k = args
+    off = 0
+    a = idx
+    while getattr(a, "pos", None) is None:
+        so = getattr(a, "slice_of", None)
+        if so is None:
+            raise Unsupported("index array is not a (slice of a) where() result")
+        a, lo = so
+        off = off + lo
+    return a.pos(to_z3(k)) - to_z3(off)
+
+
+def _is_where_like(a):
+    while a is not None:
+        if getattr(a, "pos", None) is not None:
+            return True
+        so = getattr(a, "slice_of", None)
+        a = so[0] if so else None
+    return False
+
+
+@model("where_part", doc="spec: ghost provenance - the (sliced) np.where() index array through which `rows` was selected")
+def _where_part(ex, path, args, kwargs, node, fn):
+    a = args[0]
+    seen = 0
+    while seen < 8:
+        seen += 1
+        g = getattr(a, "gather", None)
+        if g is None:
+            break
+        idx = g[1]
+        if _is_where_like(idx):
+            return idx
+        a = idx
+    raise Unsupported("the returned rows were not selected through a where() index array")
